@@ -1,6 +1,8 @@
 """property id -> check function(tier, replay) for everything that is not a plain board-trace check"""
 import tablefam
+import tablesfam
 
 CHECKS = {
+    "C04": tablesfam.check,
     "C18": tablefam.check,
 }
